@@ -555,7 +555,7 @@ namespace ratio
             for (const auto &c_tp : types)
                 dynamic_cast<const ast::type_declaration *>(c_tp)->declare(*tp);
         }
-        void class_declaration::refine(scope &scp) const
+        void class_declaration::refine_supertypes(scope &scp) const
         {
             type &tp = scp.get_type(name.id);
             for (const auto &bc : base_classes)
@@ -565,6 +565,13 @@ namespace ratio
                     s = &s->get_type(id_tk.id);
                 tp.new_supertypes({static_cast<type *>(s)});
             }
+            for (const auto &t : types)
+                if (const auto c_t = dynamic_cast<const ast::class_declaration *>(t))
+                    c_t->refine_supertypes(tp);
+        }
+        void class_declaration::refine(scope &scp) const
+        {
+            type &tp = scp.get_type(name.id);
 
             for (const auto &f : fields)
                 dynamic_cast<const ast::field_declaration *>(f)->refine(tp);
@@ -591,6 +598,11 @@ namespace ratio
         }
         void compilation_unit::refine(scope &scp) const
         {
+            // the whole hierarchy is linked first: a class can be declared before its base class, and the predicates of a class are
+            // notified to the (smart) supertypes found when they are refined..
+            for (const auto &t : types)
+                if (const auto c_t = dynamic_cast<const ast::class_declaration *>(t))
+                    c_t->refine_supertypes(scp);
             for (const auto &t : types)
                 dynamic_cast<const ast::type_declaration *>(t)->refine(scp);
             for (const auto &m : methods)
